@@ -5,7 +5,8 @@
 //                      attribute_at(i).uuid == reference type, index_by_handle(handle) == i, number_of_attributes
 //   section lower    : first_index_by_handle(h) == reference lower bound, index_by_handle(h) invalid for handles without attribute
 //   section att      : Find Information h..h names the reference type; Read returns the reference value (service, include and
-//                      characteristic declarations, descriptors, initial values); no attribute answers on a handle without attribute
+//                      characteristic declarations, descriptors, initial values); Read Blob (offset 0 and inside the value), Read Multiple
+//                      and Read By Type return the same bytes; no attribute answers on a handle without attribute
 //   section include  : include declarations name first/last handle and UUID of the included service (also evaluated when `map` failed)
 #include "mc/mc.hpp"
 #include <iterator>
@@ -117,29 +118,81 @@ struct Checker
     }
 
     // compares a Read Response with the reference value of a declaration; returns a failure or sig ""
-    Fail compare_value( const ref_attr& a, const std::uint8_t* v, std::size_t n ) const
+    // compares the value returned by an ATT request with the reference value of the attribute; returns a failure or sig "".
+    // via: "" for Read Request (signatures as ever), else the request kind, which becomes the first part of the signature.
+    // offset: offset of a Read Blob; cap: maximum number of octets the response can carry
+    Fail compare_value( const ref_attr& a, const std::uint8_t* v, std::size_t n, const char* via = "", std::size_t offset = 0, std::size_t cap = 0 ) const
     {
-        const std::string got = mc::hex( v, n ), want = mc::hex( a.value, a.vlen );
-        const std::string d = mc::fmt( "Read of handle 0x%04x (%s) returns %s, the declaration implies %s", a.handle, kind_name( a.kind ), got.c_str(), want.c_str() );
-        // a value longer than MTU - 1 is cut by a Read Request
-        const std::size_t want_n = std::min< std::size_t >( a.vlen, cl.mtu - 1 );
-        if ( n == want_n && memcmp( v, a.value, n ) == 0 ) return Fail{};
-        if ( a.kind == k_chardecl && n == a.vlen )
+        const bool by_read = via[ 0 ] == 0;
+        if ( cap == 0 ) cap = cl.mtu - 1;     // a value longer than MTU - 1 is cut by a Read Request
+        const std::size_t want_n = std::min< std::size_t >( a.vlen - offset, cap );
+        const std::uint8_t* const want = a.value + offset;
+        if ( n == want_n && memcmp( v, want, n ) == 0 ) return Fail{};
+
+        const std::string d = mc::fmt( "%s of handle 0x%04x (%s)%s returns %s, the declaration implies %s", by_read ? "Read" : via, a.handle, kind_name( a.kind ),
+                                       offset ? mc::fmt( " at offset %zu", offset ).c_str() : "", mc::hex( v, n ).c_str(), mc::hex( want, want_n ).c_str() );
+        std::string sig;
+        if ( a.kind == k_chardecl && offset == 0 && n == a.vlen )
         {
-            if ( v[ 0 ] != a.value[ 0 ] ) return Fail{ "char-decl:wrong-properties", d };
-            if ( memcmp( v + 1, a.value + 1, 2 ) != 0 ) return Fail{ mc::fmt( "char-decl:wrong-value-handle:%s", svc_class( a ) ), d };
-            return Fail{ mc::fmt( "char-decl:wrong-uuid:%s", ( a.flags & 1 ) ? "auto-uuid-characteristic" : "explicit-uuid" ), d };
+            if ( v[ 0 ] != a.value[ 0 ] ) sig = "char-decl:wrong-properties";
+            else if ( memcmp( v + 1, a.value + 1, 2 ) != 0 ) sig = "char-decl:wrong-value-handle";
+            else sig = mc::fmt( "char-decl:wrong-uuid:%s", ( a.flags & 1 ) ? "auto-uuid-characteristic" : "explicit-uuid" );
         }
-        if ( a.kind == k_include )
+        else if ( a.kind == k_include && offset == 0 )
         {
             // consecutive: the included service would have the same handles if handles were simply index + 1
             const ref_service* inc = nullptr;
             for ( std::size_t i = 0; i != db.n_svcs; ++i ) if ( db.svcs[ i ].start == rd16( a.value ) ) inc = &db.svcs[ i ];
             const bool consecutive = inc && inc->start == inc->first + 1 && inc->end == inc->first + inc->count;
-            if ( n >= 4 && memcmp( v, a.value, 4 ) != 0 ) return Fail{ mc::fmt( "include-decl:wrong-handles:%s", consecutive ? "consecutive-handles" : "fixed-handles" ), d };
-            return Fail{ "include-decl:wrong-uuid", d };
+            if ( n >= 4 && memcmp( v, a.value, 4 ) != 0 ) sig = mc::fmt( "include-decl:wrong-handles:%s", consecutive ? "consecutive-handles" : "fixed-handles" );
+            else sig = "include-decl:wrong-uuid";
         }
-        return Fail{ mc::fmt( "att-read:value-mismatch:%s", kind_name( a.kind ) ), d };
+        else sig = mc::fmt( "%svalue-mismatch:%s", by_read ? "att-read:" : "", kind_name( a.kind ) );
+        return Fail{ by_read ? sig : std::string( via ) + ":" + sig, d };
+    }
+
+    // the content of attribute a fetched through Read Blob (offset 0 and inside the value), Read Multiple and Read By Type has to
+    // be the content that Read returns (= the reference value)
+    Fail other_reads( const ref_attr& a )
+    {
+        const std::uint8_t hl = std::uint8_t( a.handle & 0xff ), hh = std::uint8_t( a.handle >> 8 );
+        const std::size_t offsets[] = { 0, std::size_t( a.vlen / 2 ) };
+        for ( std::size_t k = 0; k != ( a.vlen >= 2 ? 2u : 1u ); ++k )
+        {
+            const std::uint8_t rq[] = { 0x0C, hl, hh, std::uint8_t( offsets[ k ] & 0xff ), std::uint8_t( offsets[ k ] >> 8 ) };
+            cl.request( rq, sizeof rq ); ++evals;
+            if ( !cl.problem.empty() ) return Fail{ "att-crash:read-blob:" + cl.problem, cl.in_hex() };
+            if ( cl.is_error() && cl.error_code() == 0x0B ) { cls( "read-blob:attribute-not-long" ); continue; }   // permitted for short values
+            if ( cl.is_error() || cl.out_n < 1 || cl.out()[ 0 ] != 0x0D )
+                return Fail{ mc::fmt( "read-blob:not-accessible:%s", kind_name( a.kind ) ), mc::fmt( "Read Blob 0x%04x offset %zu -> %s", a.handle, offsets[ k ], cl.out_hex().c_str() ) };
+            Fail c = compare_value( a, cl.out() + 1, cl.out_n - 1, "read-blob", offsets[ k ] );
+            if ( !c.sig.empty() ) return c;
+            cls( mc::fmt( "read-blob:%s:%s:value-ok", kind_name( a.kind ), k ? "inside" : "offset0" ) );
+        }
+        {   // Read Multiple with the set { handle, handle }: both values, concatenated
+            const std::uint8_t rq[] = { 0x0E, hl, hh, hl, hh };
+            cl.request( rq, sizeof rq ); ++evals;
+            if ( !cl.problem.empty() ) return Fail{ "att-crash:read-multiple:" + cl.problem, cl.in_hex() };
+            if ( cl.is_error() || cl.out_n < 1 || cl.out()[ 0 ] != 0x0F )
+                return Fail{ mc::fmt( "read-multiple:not-accessible:%s", kind_name( a.kind ) ), mc::fmt( "Read Multiple 0x%04x,0x%04x -> %s", a.handle, a.handle, cl.out_hex().c_str() ) };
+            const std::size_t n = cl.out_n - 1, n1 = std::min< std::size_t >( n, a.vlen );
+            Fail c = compare_value( a, cl.out() + 1, n1, "read-multiple" );
+            if ( c.sig.empty() ) c = compare_value( a, cl.out() + 1 + n1, n - n1, "read-multiple", 0, cl.mtu - 1 - n1 );
+            if ( !c.sig.empty() ) return c;
+            cls( mc::fmt( "read-multiple:%s:value-ok", kind_name( a.kind ) ) );
+        }
+        {   // Read By Type handle..handle with the type of the attribute
+            cl.range_request( 0x08, a.handle, a.handle, a.type, a.type128 ? 16 : 2 ); ++evals;
+            if ( !cl.problem.empty() ) return Fail{ "att-crash:read-by-type:" + cl.problem, cl.in_hex() };
+            const std::uint8_t* o = cl.out();
+            if ( cl.is_error() || cl.out_n < 4 || o[ 0 ] != 0x09 || o[ 1 ] != cl.out_n - 2 || rd16( o + 2 ) != a.handle )
+                return Fail{ mc::fmt( "read-by-type:not-accessible:%s:%s", kind_name( a.kind ), a.type128 ? "type128" : "type16" ),
+                             mc::fmt( "Read By Type 0x%04x..0x%04x type %s -> %s", a.handle, a.handle, Type::of( a ).str().c_str(), cl.out_hex().c_str() ) };
+            Fail c = compare_value( a, o + 4, cl.out_n - 4, "read-by-type", 0, std::min< std::size_t >( cl.mtu - 4, 253 ) );
+            if ( !c.sig.empty() ) return c;
+            cls( mc::fmt( "read-by-type:%s:value-ok", kind_name( a.kind ) ) );
+        }
+        return Fail{};
     }
 
     std::vector< Fail > section_att()
@@ -205,6 +258,8 @@ struct Checker
             Fail c = compare_value( *a, o + 1, cl.out_n - 1 );
             if ( !c.sig.empty() ) { f.push_back( c ); return f; }
             cls( mc::fmt( "read:%s:value-ok", kind_name( a->kind ) ) );
+            c = other_reads( *a );
+            if ( !c.sig.empty() ) { f.push_back( c ); return f; }
         }
         return f;
     }
